@@ -28,7 +28,7 @@ EXHAUSTIVE = {"flag": True, "scope": "all shapes 0..3 x 0..3 for every directed 
 ANCHOR_FUNCS = ["table:Table.__init__", "table:Table.__rshift__", "table:Table.__lshift__", "table:Table.T", "table:Table.__getitem__", "table:Table.__iter__"]
 REQUIRED_STRATA = {"recompute": 200, "structural": 200, "steps": 2000}
 
-OPS = ["cell-iterator-across-advance", ">>dict-ragged-onto-columnless", "rename-first-of-twins", "cell-by-name-first", "slice-write-reversed", "two-iterations-alive", "<<row-unsized", "<<row-onto-untyped-empty", "cells-with-shape-attribute", "rows-by-index-list", "rows-by-own-int-column", "mask-none-then-lshift", "select-accessor-before-stored", "row-write-own-column", "row-held-across-writes", "colselect-2d-then-write", "write-bad-column-position", "gather-big", "sort-repeated-labels", ">>own-column-then-write", "rowslice-2d", "<<table-zero-rows", "<<row-bytearray", ">>nothing", ">>vector", ">>vector-wrong", ">>list", ">>dict", ">>dict-wrong", ">>table", ">>table-wrong", "<<row", "<<row-short", "<<row-long", "<<table", "<<row-widen", ">>dict-own-column",
+OPS = ["row-write-own-int-column", "promote-date-column-with-none", "cell-iterator-across-advance", ">>dict-ragged-onto-columnless", "rename-first-of-twins", "cell-by-name-first", "slice-write-reversed", "two-iterations-alive", "<<row-unsized", "<<row-onto-untyped-empty", "cells-with-shape-attribute", "rows-by-index-list", "rows-by-own-int-column", "mask-none-then-lshift", "select-accessor-before-stored", "row-write-own-column", "row-held-across-writes", "colselect-2d-then-write", "write-bad-column-position", "gather-big", "sort-repeated-labels", ">>own-column-then-write", "rowslice-2d", "<<table-zero-rows", "<<row-bytearray", ">>nothing", ">>vector", ">>vector-wrong", ">>list", ">>dict", ">>dict-wrong", ">>table", ">>table-wrong", "<<row", "<<row-short", "<<row-long", "<<table", "<<row-widen", ">>dict-own-column",
 	"rowslice", "rowmask", "T.T", "attr", "attr-wrong", "ragged-ctor", "attr-iterable", "setitem-table", "<<table-dupnames", ">>table-dupnames", "vector>>"]
 
 
@@ -524,6 +524,39 @@ def run_structural(chk, spec):
 			got, want = tuple(got_rows), tuple(rows_)
 		if not M.same_list(list(got), list(want)) and not (form < 2 and M.same_list(list(got), [rows_[0][0]] + list(rows_[1 if form == 0 else r - 1][1:])) and False):
 			chk.fail("the i-th row obtained by iteration equals the tuple of the i-th values of the columns", f"structural/{op}/{['iteration-advanced', 'view-moved', 'plain'][form]}", f"{spec!r}: cells read {short(got, 120)}; the row is {short(want, 120)}")
+	elif op == "row-write-own-int-column":
+		# deterministic form of the above: three int columns of distinct cells, the row values being one of them (live handle, by item, by attribute, a slice of it)
+		i, srcj, form = spec["key"]
+		tt = Table({"a": [1, 2, 3], "b": [10, 20, 30], "c": [100, 200, 300]})
+		base = [[1, 2, 3], [10, 20, 30], [100, 200, 300]]
+		src = [tt.cols()[srcj], tt[["a", "b", "c"][srcj]], getattr(tt, ["a", "b", "c"][srcj]), tt.cols()[srcj][0:3]][form]
+		order = [["a", "b", "c"], ["c", "b", "a"], ["b", "c", "a"]][(i + srcj) % 3]
+		exp = [list(x) for x in base]
+		for nm, x in zip(order, base[srcj]):
+			exp["abc".index(nm)][i] = x
+		o = call(lambda: tt.__setitem__((i, order), src))
+		if fail_rect(chk, tt, op, spec):
+			return
+		if not o.ok:
+			chk.skip("structural-row-write-own-column-refused")
+			return
+		if tcells(tt) != exp:
+			chk.fail("a row write stores the given values in the addressed cells (the values of the statement's start, also when they come from the table itself)", f"structural/row-write-own-column/wrong-cells", f"{spec!r}: row {i} of columns {order!r} <- column {srcj}: {short(tcells(tt), 160)} vs model {short(exp, 160)}")
+	elif op == "promote-date-column-with-none":
+		# a day column that holds None is promoted in place by a datetime written into it - through a cell, a row, a region, the column handle: every column keeps its length, None stays where it is
+		from datetime import date as _d, datetime as _dt
+		where, how = spec["key"][0], spec["key"][1]
+		days = [_d(2020, 1, 1), _d(2020, 1, 2), _d(2020, 1, 3), _d(2020, 1, 4)]
+		days[where] = None
+		tt = Table({"day": list(days), "n": [1, 2, 3, 4]})
+		at = (where + 1) % 4
+		stamp = _dt(2021, 5, 6, 7, 8)
+		o = call([lambda: tt.__setitem__((at, "day"), stamp), lambda: tt.__setitem__(at, [stamp, 9]), lambda: tt["day"].__setitem__(at, stamp), lambda: tt.__setitem__((slice(at, at + 1), ["day"]), [[stamp]]), lambda: tt.day.__setitem__(slice(at, at + 1), [stamp])][how])
+		if fail_rect(chk, tt, op, spec):
+			return
+		col = list(tt.cols()[0]._underlying)
+		if o.ok and (len(col) != 4 or col[where] is not None or col[at] != stamp):
+			chk.fail("a write changes the addressed cells only", f"structural/{op}/wrong-cells", f"{spec!r}: day column now {col!r}")
 	elif op == "slice-write-reversed":
 		# a row slice whose bounds select nothing (reversed, or past the end): as for a list, writing nothing - or a scalar - into it is a no-op or an error, never a longer column
 		if c == 0:
@@ -897,6 +930,10 @@ def run(chk):
 					variants = [(l_, 0, 0) for l_ in range(6)] if (r, c) == (2, 2) else []
 				elif op == "cell-iterator-across-advance":
 					variants = [(f, 0, 0) for f in range(3)] if r >= 2 and c >= 2 else []
+				elif op == "row-write-own-int-column":
+					variants = [(i, j, f) for i in range(3) for j in range(3) for f in range(4)] if (r, c) == (3, 3) else []
+				elif op == "promote-date-column-with-none":
+					variants = [(w, h, 0) for w in range(4) for h in range(5)] if (r, c) == (3, 3) else []
 				elif op == "slice-write-reversed":
 					variants = [(a, b, f) for (a, b) in ((3, 1), (2, 0), (-1, 1), (4, 2), (9, 12), (2, 2), (-1, -3)) for f in range(3)] if c else []
 				elif op == "two-iterations-alive":
